@@ -18,7 +18,7 @@ def Bay.Reached (b : Bay) (x : Nat) : Prop :=
     (m.sel ∈ b.dirty ∨ ∃ (i c : Nat), m.inputs[i]? = some (some c) ∧ c ∈ b.dirty)
 
 theorem Bay.dirtyPhase_reached {b bP : Bay} {L fuel : Nat} (wf : b.WF) (hl : b.Layered L)
-    (hd : ∀ s ∈ b.dirty, s < L) (h : b.dirtyPhase fuel 0 = .ok bP) :
+    (h : b.dirtyPhase fuel 0 = .ok bP) :
     bP.muxes = b.muxes ∧ ∀ x ∈ bP.dirty, b.Reached x := by
   let P : Bay → Nat → Prop := fun b' _ => b'.muxes = b.muxes ∧ ∀ x ∈ b'.dirty, b.Reached x
   have hsrc : ∀ c, c < L → b.Reached c → c ∈ b.dirty := by
@@ -92,7 +92,7 @@ theorem Inv.any_event {P : Src → Prop} {e e' : Emu} {b0 b : Bay} (hc : e.shape
     · rw [hi.clean.1] at h; cases h
     · exact h
   have wfP : bP.WF := (Bay.dirtyPhase_length wf1 h1).1
-  obtain ⟨_, hreach⟩ := Bay.dirtyPhase_reached wf1 hlay1 (fun s hsd => Shape.okP_lt (hdsub s hsd)) h1
+  obtain ⟨_, hreach⟩ := Bay.dirtyPhase_reached wf1 hlay1 h1
   exact ⟨b1, bP, bF, em, hwP, hm1, h1, hp, hinv, wfP, hmx1.trans hi.muxes, hdsub, hreach⟩
 
 /-- A written channel id is the id of a written source. -/
